@@ -8,7 +8,9 @@ import (
 	"runtime"
 	"strconv"
 	"strings"
+	"syscall"
 	"time"
+	"unsafe"
 )
 
 var goidRE = regexp.MustCompile(`^goroutine (\d+) \[([^\]]*)\]`)
@@ -94,14 +96,10 @@ type settled struct {
 // mainG: goroutine id of the Readline call (0 = returned); auxG: ids of auxiliary goroutines in start order
 // (-1: the SIGWINCH handler goroutine, found by name); auxDone reports finished auxiliaries.
 func settle(em *emu, mainDone func() bool, mainGf func() int, auxG []int, auxDone func(i int) bool, limit time.Duration) settled {
-	var last string
-	same := 0
-	deadline := time.Now().Add(limit)
-	var cur settled
-	for {
+	observe := func() (settled, string, bool) {
 		d := gdump()
 		mainG := mainGf()
-		cur = settled{Head: -1, Aux: []string{}}
+		cur := settled{Head: -1, Aux: []string{}}
 		if mainDone() {
 			cur.Main = "returned"
 		} else if st, ok := d[mainG]; ok {
@@ -146,20 +144,44 @@ func settle(em *emu, mainDone func() bool, mainGf func() int, auxG []int, auxDon
 		cur.Held = em.held()
 		key := cur.Main + "|" + strings.Join(cur.Aux, ",") + "|" + strconv.Itoa(cur.Head) + "|" + strconv.Itoa(cur.Held)
 		running := cur.Main == "running"
+		// input that a blocked reader has not picked up yet: its read is about to return
+		var pending int32
+		if err := ioctl(0, syscall.TIOCINQ, uintptr(unsafe.Pointer(&pending))); err == nil && pending > 0 && cur.Head != -1 {
+			running = true
+		}
 		for _, s := range cur.Aux {
 			if s == "running" {
 				running = true
 			}
 		}
-		if key == last && !running {
+		return cur, key, running
+	}
+	var last string
+	lastProg := -1
+	same := 0
+	deadline := time.Now().Add(limit)
+	for {
+		cur, key, running := observe()
+		// output still arriving or queries still being asked means somebody is running, whatever the dump caught
+		prog := em.progress()
+		if key == last && prog == lastProg && !running {
 			same++
 		} else {
 			same = 0
 		}
-		last = key
+		last, lastProg = key, prog
 		if same >= 3 {
-			cur.Quiet = true
-			return cur
+			// everything the blocked goroutines wrote before blocking (their cursor queries) must have reached
+			// the terminal before the count of held queries means anything: flush, then look once more
+			em.drain()
+			p2 := em.progress()
+			cur2, key2, running2 := observe()
+			if key2 == key && !running2 && em.progress() == p2 {
+				cur2.Quiet = true
+				return cur2
+			}
+			same = 0
+			last, lastProg = key2, em.progress()
 		}
 		if time.Now().After(deadline) {
 			return cur
